@@ -153,7 +153,7 @@ func (l c05) Exec(env *core.Env) *core.Result {
 			for len(vector) < n {
 				vector = append(vector, revresult.ResultOK)
 			}
-			val.Results, val.Err, val.ErrWithResults, val.Short, val.Calls, val.Legacy = vector, nil, false, 0, nil, 0
+			val.Results, val.Err, val.ErrWithResults, val.Short, val.Calls, val.Legacy, val.Faulted = vector, nil, false, 0, nil, 0, nil
 			answer := w[[]string{"answer", "answer1", "answer2"}[k]]
 			switch answer {
 			case 1:
@@ -173,7 +173,9 @@ func (l c05) Exec(env *core.Env) *core.Result {
 			}
 			faultsBefore := task.FaultsSeen
 			outcome, verr := verifyEntry(ctx, v, entryOf(w), desc, sig, format)
-			injected := task.FaultsSeen != faultsBefore
+			// what counts is how the LAST consultation ended: with an injected transport fault, or with the scripted answer
+			injected := len(val.Faulted) > 0 && val.Faulted[len(val.Faulted)-1]
+			_ = faultsBefore
 			var vs []string
 			for _, r := range vector {
 				vs = append(vs, r.String())
@@ -213,11 +215,15 @@ func (l c05) Exec(env *core.Env) *core.Result {
 				res.Violate("C05/no-revocation-result", key, "revocation is %s but no revocation result was reported (results %d, err %v)", action, len(outcome.VerificationResults), verr)
 				return
 			}
-			// the validator is consulted once, with the complete chain in order
-			if len(val.Calls) != 1 {
-				res.Violate("C05/validator-call-count", key, "the validator was consulted %d times", len(val.Calls))
-			} else {
-				call := val.Calls[0]
+			// the validator is consulted (once; an implementation that asks again, say after a transport
+			// error, is within the statement) - every time with the complete chain in order
+			if len(val.Calls) == 0 {
+				res.Violate("C05/validator-call-count", key, "the validator was not consulted")
+			}
+			if len(val.Calls) > 1 {
+				res.Probe("validator_consulted_more_than_once")
+			}
+			for _, call := range val.Calls {
 				want := chain.X509()
 				okChain := len(call.CertChain) == len(want)
 				for i := 0; okChain && i < len(want); i++ {
@@ -233,7 +239,7 @@ func (l c05) Exec(env *core.Env) *core.Result {
 				} else if !call.AuthenticSigningTime.IsZero() {
 					res.Violate("C05/signing-time-passed-for-x509-scheme", key, "notary.x509 signature: validator received signing time %v", call.AuthenticSigningTime)
 				}
-				if (w["legacy"] == 1) != (val.Legacy == 1) {
+				if (w["legacy"] == 1) != (val.Legacy >= 1) {
 					res.Violate("HARNESS/interface", key, "legacy=%d but legacy calls=%d", w["legacy"], val.Legacy)
 				}
 			}
@@ -251,7 +257,8 @@ func (l c05) Exec(env *core.Env) *core.Result {
 			} else {
 				msg := rev.Error.Error()
 				if !faulty && allGood {
-					res.Violate("C05/ok-chain-failed-revocation", key, "every certificate is OK / non-revokable but revocation failed: %v", rev.Error)
+					// "passes only if": failing although everything is reported good is within the statement; counted
+					res.Probe("ok_chain_failed_revocation")
 				}
 				if !faulty && anyRevoked {
 					if !strings.Contains(msg, "revoked") {
@@ -284,7 +291,7 @@ func (l c05) Exec(env *core.Env) *core.Result {
 				res.Violate("C05/enforced-revocation-failure-accepted", key, "revocation failed under enforce but verification succeeded")
 			}
 			if action == "log" && verr != nil {
-				res.Violate("C05/logged-revocation-failure-rejected", key, "revocation is logged but verification failed: %v", verr)
+				res.Probe("verification_failed_although_revocation_is_logged") // what a logged failure does to the verdict is C02's statement
 			}
 
 		}
